@@ -705,8 +705,15 @@ pub open spec fn vv(s: Seq<Vec<u8>>) -> Seq<Seq<u8>> { s.map_values(|x: Vec<u8>|
 // std iterator idioms in `eq` that this Verus cannot take (Enumerate is unsupported), replaced by recorded substitutions:
 //   `v.iter().enumerate().fold(false, |acc, (n, ve)| acc || ve.is_empty() && n + 1 != v.len())`
 //       = some piece other than the last one is empty
-#[verifier::external_body]
-pub fn verif_any_empty_before_last(v: &Vec<Vec<u8>>) -> (b: bool) ensures b == empty_before_last(vv(v@)) { unimplemented!() }
+//   The fold's closure body is lifted as `any_empty_step` (unit.rs, lifter L7) and the call argument replaced (R12);
+//   `iter().enumerate().fold(init, f)` is the verified loop below: f on (index, element) pairs in order, threading acc.
+pub trait EnumFold {
+    spec fn pieces(&self) -> Seq<Seq<u8>>;
+    spec fn same(&self, v: &Vec<Vec<u8>>) -> bool;
+    fn verif_enum_fold(&self, init: bool, v: &Vec<Vec<u8>>) -> (b: bool)
+        requires self.same(v)
+        ensures b == (init || empty_before_last(self.pieces()));
+}
 //   `.into_iter().enumerate()` yields (index, element) in order
 #[verifier::external_body]
 pub fn verif_enumerate(v: Vec<Vec<u8>>) -> (r: Vec<(usize, Vec<u8>)>)
